@@ -66,7 +66,8 @@ class ScaleSpec(SeqSpec):
             if big:
                 combos += [(n, o, d, k, True) for n in (17, 260, 5000, 20000) for o in ("asc", "rand") for d in ("top", "rand", "everyother") for k in (0, 9)]
             for n, o, d, k, rf in combos:
-                add({"kind": "tree-gc", "n": n, "order": o, "drain": d, "keep": k, "refill": rf, "seed": rng.randrange(1 << 30)})
+                add({"kind": "tree-gc", "n": n, "order": o, "drain": d, "keep": k, "refill": rf, "reads": False, "seed": rng.randrange(1 << 30)})
+                add({"kind": "tree-gc", "n": n, "order": o, "drain": d, "keep": k, "refill": rf, "reads": True, "seed": rng.randrange(1 << 30)})
         if "deque-gc" in self.kinds:
             add({"kind": "deque-gc", "style": "offset-shrink", "steps": 0, "drain": False, "seed": 1})
             for i in range(12 if big else 5):
